@@ -150,11 +150,12 @@ type Station struct {
 	// OutboundGate: from the second call on, GetOutbound waits (at most 3 s) until this channel is closed - a mailbox that is
 	// slow to answer while the other station has already said FQ and hung up
 	OutboundGate <-chan struct{}
+	GateFrom     int // first gated call (default 2)
 	nOutbound    int
-	FSFailAt    int // directory mailbox: the n-th store hits a real file-system fault
-	nStore      int
-	Batched     bool
-	NilAnswers  bool
+	FSFailAt     int // directory mailbox: the n-th store hits a real file-system fault
+	nStore       int
+	Batched      bool
+	NilAnswers   bool
 
 	// Dir, when set, makes the station a recording wrapper around a real mailbox.DirHandler: all persistent
 	// state (outbox, sent, inbox, duplicate suppression) is the directory's.
@@ -210,7 +211,11 @@ func (s *Station) GetOutbound(fw ...fbb.Address) []*fbb.Message {
 	s.nOutbound++
 	gate, n := s.OutboundGate, s.nOutbound
 	s.mu.Unlock()
-	if gate != nil && n >= 2 {
+	from := s.GateFrom
+	if from == 0 {
+		from = 2
+	}
+	if gate != nil && n >= from {
 		select {
 		case <-gate:
 		case <-time.After(3 * time.Second):
